@@ -527,9 +527,13 @@ func keepRun(r *vh.Run, idx int) {
 // verdict; the watchdogs only decide "no verdict", never a violation.
 func blockRun(r *vh.Run, idx int) {
 	rng := r.Rand(3_000_000 + idx)
-	mode := idx % 5
+	mode := idx % 6
 	if mode == 4 {
 		expiryCleanupParked(r, idx, rng)
+		return
+	}
+	if mode == 5 {
+		countPruneUsedWhileParked(r, idx, rng)
 		return
 	}
 	const target = int64(1000)
@@ -825,13 +829,94 @@ func expiryCleanupParked(r *vh.Run, idx int, rng *rand.Rand) {
 	_ = ca.DeleteAll()
 }
 
+// countPruneUsedWhileParked (mode 5): the count prune has picked the least recently used entry and waits in its pre
+// hook (in the directory store: for the upload mutex, held by a write in progress).  The entry is used meanwhile - it
+// is now the most recently used one.  When the hook returns, evicting it anyway while older entries stay is not
+// "least-recently-used first" any more (the age prune re-checks at this point; so must the count prune).
+func countPruneUsedWhileParked(r *vh.Run, idx int, rng *rand.Rand) {
+	count := 2 + rng.Intn(3)
+	gate := make(chan struct{})
+	started := make(chan struct{}, 8)
+	var mu sync.Mutex
+	cleaned := map[int64]bool{}
+	o := cache.Opts[int, int64]{Count: count,
+		PruneFn: func(k int, v int64) error {
+			mu.Lock()
+			cleaned[v] = true
+			mu.Unlock()
+			return nil
+		},
+		PrunePreFn: func(k int, v int64) {
+			if v == 1 {
+				select {
+				case started <- struct{}{}:
+				default:
+				}
+				<-gate
+			}
+		},
+		PrunePostFn: func(int, int64) {},
+	}
+	ca := cache.New[int, int64](o)
+	// keys 0..count-1 in this order of use (value = key+1), key 0 is the least recently used
+	for k := 0; k < count; k++ {
+		ca.Set(k, int64(k+1))
+		time.Sleep(1200 * time.Microsecond)
+	}
+	ca.Set(count, int64(count+1)) // one beyond the limit: the prune goes for key 0 and parks in its pre hook
+	wit := map[string]any{"batch": idx, "mode": 5, "count": count}
+	select {
+	case <-started:
+	case <-time.After(10 * time.Second):
+		r.Count("block_not_reached", 1)
+		close(gate)
+		return
+	}
+	r.Count("runs_block", 1)
+	_, err := ca.Get(0) // a use: key 0 is now the most recently used entry
+	r.Count("block_observations_before_release", 1)
+	close(gate)
+	if err != nil {
+		r.Distinct("configs", fmt.Sprintf("block/5/%d/get-failed", count))
+		return
+	}
+	// wait for the prune to settle
+	var keys []int
+	for k := 0; k < 400; k++ {
+		keys, _ = ca.List()
+		if len(keys) <= count {
+			break
+		}
+		time.Sleep(5 * time.Millisecond)
+	}
+	time.Sleep(3 * time.Millisecond)
+	keys, _ = ca.List()
+	surv := map[int]bool{}
+	for _, k := range keys {
+		surv[k] = true
+	}
+	older := []int{}
+	for k := 1; k <= count; k++ { // every other entry was used before the Get of key 0
+		if surv[k] {
+			older = append(older, k)
+		}
+	}
+	r.Count("lru_comparisons", 1)
+	if !surv[0] && len(older) > 0 {
+		wit["survivors"] = fmt.Sprint(keys)
+		r.Violation("cache:eviction is not least-recently-used first", fmt.Sprintf("key 0 was used while the count prune waited in its pre hook, making it the most recently used entry; it was evicted all the same while the older entries %v stayed (limit %d)", older, count), wit)
+	}
+	r.Distinct("configs", fmt.Sprintf("block/5/%d", count))
+	_ = ca.DeleteAll()
+}
+
 func main() {
 	r := vh.Start()
 	_ = rand.Int
 	nc := r.N(320, 6000)
 	nl := r.N(120, 2500)
 	nk := r.N(48, 800)
-	nb := r.N(120, 2500)
+	nb := r.N(144, 3000)
 	vh.Parallel(nc+nl+nk+nb, 12, func(i int) {
 		switch {
 		case i < nc:
@@ -848,5 +933,5 @@ func main() {
 	r.Require("block_observations_before_release", int64(nb*2/5))
 	r.Require("cleanups_logged", 200)
 	r.Require("lru_comparisons", 50)
-	r.Finish("three workload families on the real cache.Cache with harness-owned callbacks: (1) concurrent Set/Get/Delete/DeleteAll by 1-4 workers on 6 keys (shared or owned), Age in {0,15,40ms}, Count in {0,1,2,3,10}, failing and slow cleanups, optional pre/post hooks; (2) sequential LRU scenarios with logical clocks; (3) keep-alive / failing-cleanup expiry scenarios; (4) parked callbacks: Delete/DeleteAll with the cleanup parked on a gate (observers must still see the entry, outcome follows the cleanup result) timer expiry with the pre hook parked while the entry is used or replaced, and timer expiry with the cleanup itself parked while an observer asks for the entry. A case is one run; distinct = distinct configurations (age/count/failRate/workers/hooks/sharing)", "runs", "configs")
+	r.Finish("three workload families on the real cache.Cache with harness-owned callbacks: (1) concurrent Set/Get/Delete/DeleteAll by 1-4 workers on 6 keys (shared or owned), Age in {0,15,40ms}, Count in {0,1,2,3,10}, failing and slow cleanups, optional pre/post hooks; (2) sequential LRU scenarios with logical clocks; (3) keep-alive / failing-cleanup expiry scenarios; (4) parked callbacks: Delete/DeleteAll with the cleanup parked on a gate (observers must still see the entry, outcome follows the cleanup result) timer expiry with the pre hook parked while the entry is used or replaced, timer expiry with the cleanup itself parked while an observer asks for the entry, and a count prune parked in its pre hook while the entry it picked is used. A case is one run; distinct = distinct configurations (age/count/failRate/workers/hooks/sharing)", "runs", "configs")
 }
